@@ -635,6 +635,8 @@ func c17HTTP(r *ck.Run) {
 	resp = f.Get(nu2, "nu-bucket", "o1")
 	step("deleted-account-rejected", resp.Status == 403, resp.String())
 	// traffic by several accounts must not make the cache lose or duplicate entries (keys must not alias request buffers)
+	// restart first: the cache is cold, so every account enters it through the lookup-miss path
+	f.Restart()
 	cache, ok := f.G.IAM.(*auth.IAMCache)
 	if ok {
 		st := &c17Store{Cache: cache}
